@@ -16,7 +16,8 @@ LN2 = math.log(2.0)
 
 
 def lik(cid):
-    return 0.0 if cid == 99 else 2.0 ** (-cid)
+    """wire ids: 0..49 -> 2^-id, 51..98 -> 2^(id-50) (likelihood above 1), 99 -> 0"""
+    return 0.0 if cid == 99 else (2.0 ** (cid - 50) if cid > 50 else 2.0 ** (-cid))
 
 
 def abstract_cost(v):
@@ -29,7 +30,7 @@ def abstract_cost(v):
     z = int((v + 60.0) // K0)
     rem = v - z * K0
     c = round(rem / LN2)
-    if z < 0 or c < 0 or abs(rem - c * LN2) > 1e-7:
+    if z < 0 or abs(rem - c * LN2) > 1e-7:          # c < 0: likelihoods above 1 (unnormalised models)
         return None
     return [z, c]
 
@@ -119,7 +120,7 @@ def job_random(args):
         T = rnd.randrange(1, 9)
         n = [rnd.randrange(1, 6) for _ in range(T)]
         pz = rnd.choice([0.0, 0.1, 0.4])
-        ids = rnd.choice([[0, 1], [0, 1, 2, 3], [0, 1, 2, 3, 4, 5]])
+        ids = rnd.choice([[0, 1], [0, 1, 2, 3], [0, 1, 2, 3, 4, 5], [52, 51, 0, 1], [53, 51, 0, 2, 4]])
 
         def draw():
             return 99 if rnd.random() < pz else rnd.choice(ids)
@@ -146,10 +147,10 @@ def run(ctx):
     ctx.rule = ("TLC: Bellman = brute-force optimum and transcribed Viterbi accepted for every model with T <= 3 epochs, 1..2 "
                 "states per epoch, likelihoods {0,1/2,1} (quick: observation likelihoods {1/2,1} at T = 3). Binding: the real "
                 "HMM.estimate in likelihood and log mode on that family (the 2x2x2 size class sampled with a fixed stride) and on "
-                "random models to T = 8, S = 5 (likelihoods 2^-c and 0); each decoding judged by AcceptDecoding against the "
+                "random models to T = 8, S = 5 (likelihoods 2^-c, c from -3 to 5, and 0), plus the T <= 3 family over likelihoods {2, 1, 1/2}; each decoding judged by AcceptDecoding against the "
                 "brute-force optimum (Bellman above 1500 sequences). Non-trivial = distinct model with >= 2 candidate sequences "
                 "that contains a zero likelihood or a repeated cost in a column (ties).")
-    ctx.assumptions += ["likelihoods are 0 or powers of 1/2 (costs are integers in units of ln 2; one zero = -ln 1e-300)",
+    ctx.assumptions += ["likelihoods are 0 or powers of 2, above 1 included - unnormalised models (costs are integers in units of ln 2; one zero = -ln 1e-300)",
                         "log mode is fed ln(likelihood + 1e-300), i.e. finite logarithms",
                         "transition function is looked up with the epoch index the implementation passes (epoch of the first state)"]
     for T in (1, 2):
@@ -157,6 +158,8 @@ def run(ctx):
         ctx.tlc_mc("Viterbi", c, label="Viterbi design check T=%d S<=2 full" % T)
     c = ctx.write_cfg("V3.cfg", mc_cfg(3, 2, [0, 1] if quick else [0, 1, 99], [0, 1, 99]))
     ctx.tlc_mc("Viterbi", c, label="Viterbi design check T=3 S<=2", timeout=3000)
+    c = ctx.write_cfg("V3u.cfg", mc_cfg(3, 2, [0, 1], [51, 0, 1]))
+    ctx.tlc_mc("Viterbi", c, label="Viterbi design check T=3 S<=2, transition likelihoods above 1", timeout=3000)
     if not quick:
         c = ctx.write_cfg("V23.cfg", mc_cfg(2, 3, [0, 1, 99], [0, 1, 99]))
         ctx.tlc_mc("Viterbi", c, label="Viterbi design check T=2 S<=3", timeout=3000)
@@ -178,6 +181,16 @@ def run(ctx):
                     stride += 2
                 for off in range(16):
                     jobs.append((job_family, (n, full, full, stride * 16, off * stride + (ctx.seed % stride))))
+    # unnormalised models: likelihoods {2, 1, 1/2} (negative costs), every size class strided
+    up = [51, 0, 1]
+    for T in (2, 3):
+        for n in itertools.product([1, 2], repeat=T):
+            size = 3 ** (sum(n) + sum(n[k] * n[k + 1] for k in range(T - 1)))
+            target = 4000 if quick else 30000
+            stride = max(1, (size // target) | 1)
+            while stride > 1 and stride % 3 == 0:
+                stride += 2
+            jobs.append((job_family, (n, up, up, stride, ctx.seed % stride)))
     per = 60 if quick else 1500
     for k in range(32):
         jobs.append((job_random, (ctx.seed * 13 + k, per)))
